@@ -38,7 +38,11 @@ impl Cx {
     pub fn off(&mut self, s: &[u8], what: &'static str) -> usize {
         self.sub_slices += 1;
         let p = s.as_ptr() as usize;
-        let ok = p >= self.base && p + s.len() <= self.base + self.len;
+        // (an empty slice covers no memory: constants like `&[]` are fine)
+        let ok = s.is_empty() || (p >= self.base && p + s.len() <= self.base + self.len);
+        if s.is_empty() && !(p >= self.base && p <= self.base + self.len) {
+            return 0;
+        }
         if !ok {
             if self.bad.len() < 8 {
                 self.bad.push(format!(
